@@ -81,9 +81,11 @@ func main() {
 	hashes := flag.String("hashes", "", "file receiving the trace hashes of nontrivial runs")
 	maxViol := flag.Int("maxviol", 2, "stop after this many violations")
 	logRuns := flag.String("eventlog", "", "determinism self-test: write one line per run (hash, steps, choices) to this file")
+	deep := flag.Bool("deep", false, "thorough tier: worlds use wider bounds")
 	noShrink := flag.Bool("noshrink", false, "do not shrink or confirm violations (determinism self-test)")
 	flag.Parse()
 
+	zsim.Deep = *deep
 	if *world == "" {
 		*world = worlds.WorldFor(*prop)
 	}
